@@ -9,14 +9,42 @@ branch by branch, in the order of the `isinstance` tests:
     if isinstance(value, set):         return frozenset(freeze_value(e) for e in value)
     if isinstance(value, (list, tuple)):
                                        return tuple(freeze_value(e) for e in value)
+    if isinstance(value, AbstractMapping):
+                                       return frozendict({k: freeze_value(v) for k, v in value.items()})
+    if isinstance(value, AbstractSet) and not isinstance(value, frozenset):
+                                       return frozenset(freeze_value(e) for e in value)
+    if isinstance(value, AbstractSequence) and not isinstance(value, bytes):
+                                       return tuple(freeze_value(e) for e in value)
     return value
 
-(the `tuple` alternative of the last test is /repo fix 3900daf: tuples are entered, so a list
-placed inside a tuple is frozen too).  `frozendict` (the pure-Python implementation installed
-here) is a subclass of `dict`, so a frozendict takes the `dict` branch (its values are frozen
-again); `frozenset` is not a `set`: it is returned as it is, *without* looking inside — its
-elements are hashable, like dictionary keys, which are never touched either.  `other` stands
-for every other object (None, floats, …), treated as an immutable atom.
+(the `tuple` alternative of the fourth test is /repo fix 3900daf: tuples are entered, so a list
+placed inside a tuple is frozen too; the fifth and sixth tests are /repo fix 0014d04, finding F37;
+the seventh is /repo fix ab97679).
+`frozendict` (the pure-Python implementation installed here) is a subclass of `dict`, so a
+frozendict takes the `dict` branch (its values are frozen again); `frozenset` is not a `set`: it
+is returned as it is, *without* looking inside — its elements are hashable, like dictionary keys,
+which are never touched either.
+
+The kinds are kinds of *behaviour under `isinstance`*, so subclasses of the builtins belong to
+the kind of their base (`OrderedDict`, `defaultdict`, `Counter` are `dict`; a namedtuple is a
+`tuple`; a list subclass is a `list`).  Three kinds stand for the containers that are NOT
+instances of any builtin container and nevertheless hold, or give access to, changeable content:
+
+  * `setlike` — a `collections.abc.Set` that is neither a `set` nor a `frozenset`: the
+    `d.keys()` / `d.items()` views of a dictionary (live windows onto `d`: they change when `d`
+    does), a user class deriving from `collections.abc.Set`.  Its elements need not be hashable
+    (`{1: [2]}.items()` holds the tuple `(1, [2])`).
+  * `maplike` — a `collections.abc.Mapping` that is not a `dict`: `types.MappingProxyType`
+    (a read-only *view* of a dict somebody else can still write to), `collections.UserDict`,
+    `collections.ChainMap`, a user class deriving from `collections.abc.Mapping`.
+  * `seqlike` — a `collections.abc.Sequence` that is neither a `list` nor a `tuple` (nor `str` /
+    `bytes`, which are atoms): `collections.UserList`, `collections.deque`, a user class deriving
+    from `collections.abc.Sequence` (MNTM's annotation admits any `Sequence` of results).
+
+All three are mutable-or-aliasing: `isFrozen` is false of them.  Until fixes 0014d04 / ab97679
+`freeze_value` returned them as they were (`freezeOld` in Props/C18.lean), and this model hid the defect by
+lumping them into `other`.  `other` now stands ONLY for genuinely immutable atoms (None, floats,
+bools seen as such, bytes, …): objects with no content that can change.
 -/
 import AutomataVerif.Model.Basic
 import AutomataVerif.Generated.ObjectProtocol
@@ -34,6 +62,12 @@ inductive PyVal
   | frozendict (kvs : List (PyVal × PyVal))
   | frozenset (xs : List PyVal)
   | tuple (xs : List PyVal)
+  /-- a `collections.abc.Set` that is neither `set` nor `frozenset` (dict views, user classes) -/
+  | setlike (xs : List PyVal)
+  /-- a `collections.abc.Mapping` that is not a `dict` (mappingproxy, UserDict, ChainMap, …) -/
+  | maplike (kvs : List (PyVal × PyVal))
+  /-- a `collections.abc.Sequence` that is neither `list` nor `tuple` nor `str` / `bytes` (UserList, deque, …) -/
+  | seqlike (xs : List PyVal)
   deriving Repr, Inhabited
 
 namespace PyVal
@@ -48,6 +82,9 @@ def freeze : PyVal → PyVal
   | set xs => frozenset (freezeList xs)
   | list xs => tuple (freezeList xs)
   | tuple xs => tuple (freezeList xs)                -- isinstance(value, (list, tuple))
+  | maplike kvs => frozendict (freezeKVs kvs)        -- isinstance(value, AbstractMapping)   (fix 0014d04)
+  | setlike xs => frozenset (freezeList xs)          -- AbstractSet and not frozenset        (fix 0014d04)
+  | seqlike xs => tuple (freezeList xs)              -- AbstractSequence and not bytes       (fix ab97679)
   | frozenset xs => frozenset xs
   | other t => other t
 /-- `freeze_value(e) for e in value`. -/
@@ -61,8 +98,9 @@ def freezeKVs : List (PyVal × PyVal) → List (PyVal × PyVal)
 end
 
 mutual
-/-- No `dict`, `set` or `list` object anywhere inside (keys included): the value cannot be
-changed through any reference to it or to a part of it. -/
+/-- No `dict`, `set` or `list` object, and no set-like / mapping-like / sequence-like look-alike of
+one (a view, a proxy, a user container), anywhere inside (keys included): the value cannot be changed through
+any reference to it or to a part of it. -/
 def isFrozen : PyVal → Bool
   | str _ => true
   | int _ => true
@@ -70,6 +108,9 @@ def isFrozen : PyVal → Bool
   | dict _ => false
   | set _ => false
   | list _ => false
+  | setlike _ => false
+  | maplike _ => false
+  | seqlike _ => false
   | frozendict kvs => isFrozenKVs kvs
   | frozenset xs => isFrozenList xs
   | tuple xs => isFrozenList xs
@@ -89,7 +130,9 @@ frozenset is *hashable*.  On this model a value is hashable iff it is `isFrozen`
 tuples and the values of dicts / frozendicts may hold anything and nest arbitrarily.
 What is excluded (`{[1]: 2}`, `{[1]}`, `frozenset([[1]])`, `{(1, [2]): 3}` …) cannot occur:
 building such an object raises `TypeError: unhashable type` in Python before `freeze_value`
-could ever see it. -/
+could ever see it.  A `maplike` has hashable keys like a dict (every Mapping of the standard
+library is backed by dicts); a `setlike` may hold anything (the items view of `{1: [2]}` holds
+`(1, [2])`; a user `Set` may keep its elements in a list). -/
 def supported : PyVal → Bool
   | str _ => true
   | int _ => true
@@ -100,6 +143,9 @@ def supported : PyVal → Bool
   | list xs => supportedList xs
   | frozenset xs => isFrozenList xs
   | tuple xs => supportedList xs
+  | setlike xs => supportedList xs        -- elements need not be hashable: `{1: [2]}.items()`
+  | maplike kvs => supportedKVs kvs
+  | seqlike xs => supportedList xs
 def supportedList : List PyVal → Bool
   | [] => true
   | x :: xs => supported x && supportedList xs
@@ -122,6 +168,9 @@ def norm : PyVal → PyVal
   | frozenset xs => frozenset (normList xs)
   | list xs => tuple (normList xs)
   | tuple xs => tuple (normList xs)
+  | setlike xs => frozenset (normList xs)
+  | maplike kvs => frozendict (normKVs kvs)
+  | seqlike xs => tuple (normList xs)
 def normList : List PyVal → List PyVal
   | [] => []
   | x :: xs => norm x :: normList xs
